@@ -192,8 +192,7 @@ static void exercise(const std::string& kind, const std::string& fn, const std::
             case REAL: (void)in.getInitData<float>(name); break;
             case DOUB: (void)in.getInitData<double>(name); break;
             case LOGI: (void)in.getInitData<bool>(name); break;
-            case CHAR: case C0NN: (void)in.getInitData<std::string>(name); break;
-            default: break;
+            default: break;   // (no string instantiation of getInitData in the library)
             }
         }
         readAll(in);
